@@ -9,6 +9,11 @@ What runs against the real code ($VERIF_REPO):
      core.compile_template and tracing.trace_origin are replaced by recording caches; after EVERY call of
      generated histories every cached object is compared with a fresh computation, and every call's result
      is compared with the result of the same call in a fresh process (fork of a pristine zygote).
+  3. (round 5) state audit: every module-level mutable object of every pyrefact module is digested in the fresh
+     process, after every history and after clearing every lru cache; what changed must be allow-listed with its
+     invariant (corpus/c05/module_state.json); containers keyed by id(...) are never accepted;
+  4. (round 5) histories on the REAL caches without recorders (mode 'bare': evicted trees really are freed) that end
+     with never-seen probe inputs; the registry core._REBOUND_NAMES vs AuxStateModel (WeakSet design).
 A cache entry that differs from a fresh computation, or a result that differs from the fresh-process result,
 is a violation of C05 with a concrete failing history."""
 from __future__ import annotations
@@ -262,9 +267,9 @@ class Caches:
         return bad
 
 
-def clear_all_caches():
+def clear_all_caches(include_logs=False):
     for name, mod in list(sys.modules.items()):
-        if name.startswith("pyrefact") and mod is not None and name != "pyrefact.logs":
+        if name.startswith("pyrefact") and mod is not None and (include_logs or name != "pyrefact.logs"):
             for v in list(vars(mod).values()):
                 if hasattr(v, "cache_clear") and callable(v.cache_clear):
                     try:
@@ -273,13 +278,214 @@ def clear_all_caches():
                         pass
 
 
+
+# ------------------------------------------------------------------------------------------------
+# state audit: every module-level mutable object of every pyrefact module (round 5, seed C05-d)
+
+STATE_OBJS = None      # set in the main process before the zygotes fork (the forks see the same objects)
+STATE_ALLOW_FILE = common.VERIF / "corpus" / "c05" / "module_state.json"
+_PRINTABLE = (str, bytes, int, float, bool, complex, type(None))
+ID_KEY_MIN = 2 ** 20           # ints above this that fill a whole container are taken for id(...) values
+
+
+def _container_kind(v):
+    import collections
+    import weakref
+    if isinstance(v, (weakref.WeakSet, weakref.WeakKeyDictionary, weakref.WeakValueDictionary)):
+        return type(v).__name__
+    if isinstance(v, (dict, list, set, bytearray, collections.deque)):      # incl. defaultdict, OrderedDict, Counter
+        return type(v).__name__
+    if hasattr(v, "cache_info") and hasattr(v, "cache_clear") and callable(v.cache_clear):
+        return "lru_cache"
+    return None
+
+
+def _functions_of(v, depth=0):
+    """v and the functions it wraps (functools.wraps chains, lru_cache wrappers, staticmethod/classmethod/property)."""
+    import types
+    out = []
+    while v is not None and depth < 6:
+        if isinstance(v, (staticmethod, classmethod)):
+            v = v.__func__
+            continue
+        if isinstance(v, property):
+            v = v.fget
+            continue
+        if isinstance(v, types.FunctionType):
+            out.append(v)
+        v = getattr(v, "__wrapped__", None)
+        depth += 1
+    return out
+
+
+def import_all_pyrefact():
+    """Every module of the package, so that the audit sees all of them (main process, before the zygotes fork)."""
+    import importlib
+    import pkgutil
+    import pyrefact
+    failed = []
+    for m in pkgutil.walk_packages(pyrefact.__path__, "pyrefact."):
+        if m.name.endswith("__main__"):
+            continue
+        try:
+            importlib.import_module(m.name)
+        except Exception as e:  # noqa
+            failed.append(f"{m.name}: {type(e).__name__}")
+    return failed
+
+
+def state_objects() -> list[tuple[str, str, object]]:
+    """[(qualified name, kind, object)] for every module-level mutable object of the imported pyrefact modules:
+    containers and lru_cache wrappers among the module globals, class attributes, mutable default arguments and
+    closure cells of module-level functions / methods; plus rebindable scalars and module-level ast objects (kind
+    'value': their digest is the value itself).  One entry per object (aliases are listed once, first name wins)."""
+    import types
+    out, seen = [], set()
+
+    def add(name, v, allow_value=False):
+        kind = _container_kind(v)
+        if kind is None and allow_value and (isinstance(v, _PRINTABLE + (tuple, frozenset, ast.AST))):
+            kind = "value"
+        if kind is None or id(v) in seen:
+            return
+        if kind != "value":
+            seen.add(id(v))
+        if kind == "lru_cache" and getattr(v, "__qualname__", None):     # aliases (pyrefact.compile): the defining name
+            name = f"{v.__module__}.{v.__qualname__}"
+        out.append((name, kind, v))
+
+    def add_function(name, fn):
+        for f in _functions_of(fn):
+            if not (getattr(f, "__module__", "") or "").startswith("pyrefact"):
+                continue
+            for i, d in enumerate(f.__defaults__ or ()):
+                add(f"{name}.__defaults__[{i}]", d)
+            for k, d in sorted((f.__kwdefaults__ or {}).items()):
+                add(f"{name}.__kwdefaults__[{k}]", d)
+            for cname, cell in zip(f.__code__.co_freevars, f.__closure__ or ()):
+                try:
+                    add(f"{name}.<closure {cname}>", cell.cell_contents)
+                except ValueError:
+                    pass
+
+    for mname, mod in sorted(sys.modules.items()):
+        if not (mname == "pyrefact" or mname.startswith("pyrefact.")) or mod is None:
+            continue
+        for k, v in sorted(vars(mod).items()):
+            if k.startswith("__") or isinstance(v, types.ModuleType):
+                continue
+            q = f"{mname}.{k}"
+            if isinstance(v, type):
+                if v.__module__ != mname:
+                    continue
+                for ck, cv in sorted(vars(v).items()):
+                    if ck.startswith("__") or ck == "_field_defaults":
+                        continue
+                    add(f"{q}.{ck}", cv)
+                    add_function(f"{q}.{ck}", cv)
+                continue
+            add(q, v, allow_value=True)
+            add_function(q, v)
+    return out
+
+
+def _printable(x, depth=0) -> bool:
+    if isinstance(x, _PRINTABLE):
+        return True
+    if isinstance(x, (tuple, frozenset)) and depth < 4:
+        return all(_printable(y, depth + 1) for y in x)
+    return False
+
+
+def _h(text: str) -> str:
+    import hashlib
+    return hashlib.sha1(text.encode("utf-8", "backslashreplace")).hexdigest()[:12]
+
+
+def state_digest(kind, v):
+    """Canonical digest: length + hash of the sorted repr of the keys / elements where they are plain data (and of the
+    values where those are plain data too); for containers of other objects (nodes) the length alone; a non-empty
+    container all of whose keys are ints > 2**20 is marked id-keyed (length alone: addresses differ per process)."""
+    if kind == "lru_cache":
+        return {"len": v.cache_info().currsize}
+    if kind == "value":
+        return {"value": _h(sdump(v))}
+    try:
+        keys = list(v.keys()) if hasattr(v, "keys") else list(v)
+    except Exception as e:  # noqa
+        return {"error": type(e).__name__}
+    d = {"len": len(keys)}
+    if keys and all(type(k) is int and k > ID_KEY_MIN for k in keys):
+        d["id_keyed"] = True
+        return d
+    ordered = isinstance(v, (list, bytearray)) or type(v).__name__ == "deque"
+    if all(_printable(k) for k in keys):
+        reprs = [repr(k) for k in keys]
+        d["keys"] = _h("\x00".join(reprs if ordered else sorted(reprs)))
+        if isinstance(v, dict):
+            vals = [v[k] for k in keys]
+            if all(_printable(x) or isinstance(x, (list, set, dict)) and _printable(tuple(x)) for x in vals):
+                d["values"] = _h("\x00".join(sorted(f"{k!r}:{sdump(x)}" for k, x in zip(keys, vals))))
+    return d
+
+
+class StateAudit:
+    """Taken in the job process: digests at the start (= the pristine zygote: pyrefact imported, nothing run), after the
+    history, and after the history + cache_clear() of every lru_cache + gc (what is left then outlives every cache)."""
+
+    def __init__(self):
+        self.objs = STATE_OBJS if STATE_OBJS is not None else state_objects()
+        self.fresh = [state_digest(k, v) for _, k, v in self.objs]
+
+    def finish(self) -> list[dict]:
+        import gc
+        after = [state_digest(k, v) for _, k, v in self.objs]
+        changed = [i for i, (a, b) in enumerate(zip(self.fresh, after)) if a != b]
+        if not changed:
+            return []
+        clear_all_caches(include_logs=False)
+        for i in changed:
+            if self.objs[i][1] == "lru_cache":
+                try:
+                    self.objs[i][2].cache_clear()
+                except Exception:  # noqa
+                    pass
+        cleared = {i: state_digest(self.objs[i][1], self.objs[i][2]) for i in changed}
+        if any(cleared[i] != self.fresh[i] for i in changed):
+            gc.collect()           # reference cycles only; parse trees have none, so this is the rare path
+            cleared = {i: state_digest(self.objs[i][1], self.objs[i][2]) for i in changed}
+        return [{"object": self.objs[i][0], "object_kind": self.objs[i][1], "fresh": self.fresh[i],
+                 "after_history": after[i], "after_cache_clear": cleared[i]} for i in changed]
+
+
+def load_state_allow() -> dict:
+    data = json.loads(STATE_ALLOW_FILE.read_text())
+    return {e["object"]: e for e in data["allow"]}
+
+
+def judge_state_change(ch: dict, allow: dict):
+    """None if harmless, else the reason why this changed module-level object breaks the audit."""
+    if ch["after_history"].get("id_keyed") or ch["after_cache_clear"].get("id_keyed"):
+        return ("container keyed by id(...) values (all keys are ints > 2**20): an address names an object only while that "
+                "object lives; never allow-listable")
+    e = allow.get(ch["object"])
+    if e is None:
+        return "module-level object changed by a call history and not on the allow-list corpus/c05/module_state.json"
+    if e["kind"] != ch["object_kind"]:
+        return f"allow-listed as {e['kind']} (invariant: {e['invariant']}) but is now a {ch['object_kind']}"
+    if not e.get("survives_cache_clear") and ch["after_cache_clear"] != ch["fresh"]:
+        return (f"allow-listed with the invariant '{e['invariant']}', but after cache_clear() of every lru_cache + gc it "
+                "does not return to its fresh-process digest: entries outlive the cached objects")
+    return None
+
+
 # ------------------------------------------------------------------------------------------------
 # operations of a history
 
 
 def run_op(mods, op):
     """op = ("rule", qname, source, args, kwargs) | ("rejected", qname, source, args, kwargs)
-          | ("format", source, cfg name) | ("sub"/"findall", pattern, repl, source)"""
+          | ("format", source, cfg name) | ("sub"/"findall", pattern, repl, source) | ("parse", source)"""
     kind = op[0]
     try:
         if kind == "rule":
@@ -294,6 +500,8 @@ def run_op(mods, op):
                 core.is_valid_python = real
         if kind == "format":
             return ("ok", canon(mods["main"].format_code(op[1], **CFGS[op[2]])))
+        if kind == "parse":       # the request every rule starts with; result = the tree it is handed
+            return ("ok", tree_dump(mods["core"].parse(op[1])))
         if kind == "sub":
             return ("ok", canon(mods["pattern_matching"].sub(op[1], op[2], op[3])))
         if kind == "findall":
@@ -306,6 +514,14 @@ def run_op(mods, op):
 def job_history(job) -> dict:
     """Runs in a fresh fork of the pristine zygote."""
     mods = MODS
+    audit = StateAudit() if job.get("audit", True) else None     # before the recorders replace the cache objects
+    if job.get("mode") == "bare":
+        # no recorders at all: the real caches and nothing else holds the objects they hand out, so that an evicted
+        # tree really is freed and its addresses are reused (the recorders of the other modes keep every tree alive)
+        results = [run_op(mods, op) for op in job["ops"]]
+        stats = {"lru_currsize": mods["core"].parse.cache_info().currsize, "lru_misses": mods["core"].parse.cache_info().misses}
+        state = audit.finish() if audit is not None else []
+        return {"results": results, "problems": [], "stats": stats, "state": state}
     caches = Caches(mods, job.get("mode", "record"))
     results, problems = [], []
     every = job.get("check", "all")           # all: every entry after every call; window: handed-out only
@@ -320,7 +536,16 @@ def job_history(job) -> dict:
              "objects_checked": caches.checked}
     if job.get("mode") == "through":
         stats["lru_currsize"] = caches.parse.orig.cache_info().currsize
-    return {"results": results, "problems": problems, "stats": stats}
+    state = []
+    if audit is not None:
+        caches.uninstall()
+        for r in (caches.parse, caches.template, caches.trace):     # the recorders' own references to handed-out objects
+            r.entries.clear()
+            r.window.clear()
+        caches.fresh_memo.clear()        # its keys are the argument tuples (compile_template takes nodes as wildcards)
+        state = audit.finish()
+        stats["state_objects"] = len(audit.objs)
+    return {"results": results, "problems": problems, "stats": stats, "state": state}
 
 
 # ---- synthetic rules against the real lru_cache objects (cache mechanics correspondence)
@@ -368,6 +593,61 @@ def job_mechanics(job) -> list:
     return out
 
 
+
+# ---- the registry next to the parse cache (core._REBOUND_NAMES) vs AuxStateModel (weak design)
+
+
+def reg_source(ident: int, binder: bool) -> str:
+    return (f"def f{ident}(len):\n    return len('abc')\n" if binder else f"x{ident} = len('abc')\n")
+
+
+def job_registry(job) -> list:
+    """cases: (cap, binder ids, history of source ids).  Observation per call: does the evaluator take the builtin
+    call of the parsed tree for a call of the builtin (core.is_made_of_literals on the Call node)."""
+    core = MODS["core"]
+    real_cap = core.parse.cache_parameters()["maxsize"]
+    out = []
+    for (cap, binders, h) in job["cases"]:
+        if cap == real_cap:
+            core.parse.cache_clear()
+            f = core.parse
+        else:
+            f = functools.lru_cache(maxsize=cap)(core.parse.__wrapped__)
+        seen = []
+        for ident in h:
+            tree = f(reg_source(ident, ident in binders))
+            call = next(n for n in ast.walk(tree) if isinstance(n, ast.Call))
+            seen.append(bool(core.is_made_of_literals(call)))
+        del tree, call
+        if f is not core.parse:
+            f.cache_clear()
+        out.append(seen)
+    core.parse.cache_clear()
+    return out
+
+
+def registry_cases(real_cap):
+    cases = []
+    for cap in (1, 2):
+        for binders in ((0,), (0, 1), ()):
+            for n in range(1, 5):
+                for h in itertools.product(range(4), repeat=n):
+                    cases.append((cap, binders, list(h)))
+    for binders in ((0,), (0, 50, 99), tuple(range(0, 120, 2))):
+        n = real_cap + 20
+        cases.append((real_cap, binders, list(range(n)) + list(range(n))))
+        cases.append((real_cap, binders, list(range(n)) + [0, 1, 0] + list(range(n, n + 30))))
+    return cases
+
+
+def write_reg_file(path: Path, items):
+    body = ";\n ".join(f"(mkRCase {c[0]} {glist(list(c[1]), str)} {glist(c[2], str)} {glist(r, gbool)})" for c, r in items)
+    path.write_text("From Coq Require Import List Arith Bool.\nImport ListNotations.\n"
+                    "Require Import Pyrefact.Base Pyrefact.CacheModel Pyrefact.AuxStateModel.\n"
+                    f"Definition cases : list reg_case := [\n {body}\n].\n"
+                    "Eval vm_compute in (bad_idx reg_case_ok cases).\n")
+
+
 def job_harvest(job):
     """The harvest runs the repo's example scripts; in a fork with a time limit, so that a rule that hangs on its own
     example cannot hang the check."""
@@ -382,7 +662,7 @@ def harvest_isolated(farm, timeout=150):
     return rest[0]
 
 
-JOBS = {"history": job_history, "mechanics": job_mechanics, "harvest": job_harvest}      # other harness modules may register job kinds
+JOBS = {"history": job_history, "mechanics": job_mechanics, "harvest": job_harvest, "registry": job_registry}      # other harness modules may register job kinds
 
 
 def run_job(job):
@@ -460,13 +740,28 @@ class Farm:
         for z in self.zs:
             self.q.put(z)
         self.ex = ThreadPoolExecutor(max_workers=n)
+        self.state_changes = {}     # (object, kind, digest class) -> {"change", "ops", "mode", "count"}: from every history job
+        self.audited_jobs = 0
 
     def _one(self, job):
         z = self.q.get()
         try:
-            return z.call(job)
+            res = z.call(job)
         finally:
             self.q.put(z)
+        if job.get("kind") == "history" and res[0] == "ok" and isinstance(res[1], dict):
+            self.audited_jobs += 1
+            for ch in res[1].get("state", ()):
+                key = (ch["object"], ch["object_kind"], bool(ch["after_history"].get("id_keyed")),
+                       ch["after_cache_clear"] == ch["fresh"])
+                slot = self.state_changes.get(key)
+                if slot is None:
+                    self.state_changes[key] = {"change": ch, "ops": job["ops"], "mode": job.get("mode", "record"), "count": 1}
+                else:
+                    slot["count"] += 1
+                    if len(job["ops"]) < len(slot["ops"]):
+                        slot.update(change=ch, ops=job["ops"], mode=job.get("mode", "record"))
+        return res
 
     def map(self, jobs):
         return list(self.ex.map(self._one, jobs))
@@ -686,6 +981,93 @@ def sentinel_eviction_histories(pool, real_cap=100):
     return [sentinels + fillers + sentinels]
 
 
+
+# ---- histories that end with FRESH probe inputs (round 5, seed C05-d)
+
+PURE_BUILTINS_FALLBACK = ("abs all any ascii bin bool bytes chr complex dict divmod enumerate float format frozenset hex int len "
+                          "list max min oct ord pow range repr reversed round set slice sorted str sum tuple zip").split()
+# one foldable call of the builtin on literals, as a comparison that is True
+FOLDABLE = {
+    "abs": "abs(-3) == 3", "all": "all([1, 1]) == True", "any": "any([0, 1]) == True", "ascii": "ascii('a') == \"'a'\"",
+    "bin": "bin(5) == '0b101'", "bool": "bool(1) == True", "bytes": "bytes(2) == b'\\x00\\x00'", "chr": "chr(97) == 'a'",
+    "complex": "complex(1, 2) == 1 + 2j", "dict": "dict(a=1) == {'a': 1}", "divmod": "divmod(7, 2) == (3, 1)",
+    "enumerate": "enumerate('ab') != 0", "float": "float(2) == 2.0", "format": "format(5, 'd') == '5'",
+    "frozenset": "frozenset('a') == {'a'}", "hex": "hex(255) == '0xff'", "int": "int('7') == 7", "len": "len('abc') == 3",
+    "list": "list('ab') == ['a', 'b']", "max": "max(1, 2) == 2", "min": "min(1, 2) == 1", "oct": "oct(8) == '0o10'",
+    "ord": "ord('a') == 97", "pow": "pow(2, 3) == 8", "range": "range(3) == range(0, 3)", "repr": "repr(1) == '1'",
+    "reversed": "reversed('ab') != 0", "round": "round(2.6) == 3", "set": "set('a') == {'a'}", "slice": "slice(1) == slice(None, 1)",
+    "sorted": "sorted([2, 1]) == [1, 2]", "str": "str(1) == '1'", "sum": "sum([1, 2]) == 3", "tuple": "tuple('ab') == ('a', 'b')",
+    "zip": "zip('a', 'b') != 0",
+}
+N_PROBES = 60
+N_READS = 120
+
+
+def evaluator_builtins(mods) -> list[str]:
+    names = getattr(mods["constants"], "PURE_BUILTIN_FUNCTIONS", None)
+    return sorted(names) if names else list(PURE_BUILTINS_FALLBACK)
+
+
+def binder_sources(builtins_, n_reads=N_READS) -> list[str]:
+    """Sources that bind a name spelled like a builtin (parameter / assignment / loop target / def / import as; one star
+    import) and read it many times: what a real module with a parameter called max does, Name-node dense."""
+    out = []
+    for b in builtins_:
+        reads = ", ".join([b] * n_reads)
+        out.append(f"def use_{b}(values, {b}):\n    return [{reads}]\n")
+        out.append(f"{b} = 1\nprint({reads})\n")
+        out.append(f"for {b} in range(3):\n    print({reads})\n")
+    out.append(f"def {builtins_[0]}(x):\n    return x\n\n\nprint({', '.join([builtins_[0]] * n_reads)})\n")
+    out.append(f"from m import x as {builtins_[-1]}\n\nprint({', '.join([builtins_[-1]] * n_reads)})\n")
+    out.append("from os.path import *\n\nprint(" + ", ".join(builtins_ * 3) + ")\n")
+    return out
+
+
+def filler_sources(k, tag) -> list[str]:
+    return [f"filler_{tag}_{i} = [{', '.join(f'v{i}_{j}' for j in range(12))}]\n" for i in range(k)]
+
+
+def probe_sources(builtins_, tag, n=N_PROBES) -> list[str]:
+    """n small inputs, each with ONE foldable call of a builtin on literals; texts never seen before in the history."""
+    out = []
+    for i in range(n):
+        b = builtins_[i % len(builtins_)]
+        e = FOLDABLE.get(b, f"{b}(1) == {b}(1)")
+        if i < len(builtins_):
+            out.append(f"import sys\n\nif sys.argv[{i}:] and {e}:\n    print('{tag}', {i})\nelse:\n    print(-{i})\n")
+        else:
+            out.append(f"if {e}:\n    print('{tag}', {i})\nelse:\n    print(-{i})\n")
+    return out
+
+
+def probe_histories(mods, quick=True):
+    """[binder sources for every builtin the evaluator knows] + [K > maxsize filler parses] + [60 fresh probes].
+    Returns [(label, ops, index of the first probe op)].  Deterministic (no seed)."""
+    bs = evaluator_builtins(mods)
+    binders = binder_sources(bs)
+    out = []
+    # corpus witness first: one binder form of `len`, 101 fillers, 60 probes with len('abc') == 3
+    wit = json.loads((common.VERIF / "corpus" / "c05" / "witness_C05-d.json").read_text())
+    w_ops = [("parse", s.replace("{READS}", ", ".join([wit["name"]] * wit["reads"]))) for s in wit["binders"]]
+    w_ops += [("parse", s) for s in filler_sources(wit["fillers"], "w")]
+    n0 = len(w_ops)
+    w_ops += [("format", wit["probe"].replace("{I}", str(i)), "default") for i in range(wit["probes"])]
+    out.append(("witness", w_ops, n0))
+    for k in (101, 150, 300):
+        ops = [("parse", s) for s in binders] + [("parse", s) for s in filler_sources(k, k)]
+        n0 = len(ops)
+        ops += [("format", s, "default") for s in probe_sources(bs, f"k{k}")]
+        out.append((f"parse-K{k}", ops, n0))
+    # the same through rule calls only (the public entry points), probes through the two rules that fold
+    q1, q2 = "fixes.remove_dead_ifs", "symbolic_math.simplify_boolean_expressions"
+    ops = [("rule", q1, s, (), {}) for s in binders] + [("rule", q1, s, (), {}) for s in filler_sources(150, "r")]
+    n0 = len(ops)
+    for s in probe_sources(bs, "rule"):
+        ops += [("rule", q2, s, (), {}), ("rule", q1, s, (), {})]
+    out.append(("rules-K150", ops, n0))
+    return out
+
+
 def _op_ok(r) -> bool:
     try:
         op_key(rec_op(r))
@@ -762,12 +1144,14 @@ def shrink_history(farm, ops, mode, still_fails):
 
 
 def check(run: common.Run):
-    global MODS
+    global MODS, STATE_OBJS
     t_start = time.time()
     wd = common.workdir(PID)
     MODS = common.import_impl()
     mods = MODS
     core = mods["core"]
+    import_all_pyrefact()         # every module of the package, so that the state audit sees all of them
+    STATE_OBJS = state_objects()
     farm = Farm()                 # forked NOW: pyrefact imported, nothing run yet
     try:
         fail_closed(run, _check, run, wd, mods, core, farm, t_start)
@@ -821,6 +1205,33 @@ def _check(run, wd, mods, core, farm, t_start):
     mech_nontrivial = {json.dumps(c) for c, (seen, misses) in mech_items
                        if any(not m for m in misses) and any(o[0] == "M" for call in c[3] for o in call)}
     timing["mechanics_s"] = round(time.time() - t0, 1)
+
+    # ---- 1b. the registry keyed by node identity (core._REBOUND_NAMES) vs AuxStateModel, WeakSet design
+    t0 = time.time()
+    rcases = registry_cases(real_cap)
+    rchunks = [rcases[i:i + CH] for i in range(0, len(rcases), CH)]
+    rres = farm.map([{"kind": "registry", "cases": ch} for ch in rchunks])
+    reg_items, reg_err, reg_dis = [], [], []
+    for ch, (st, *rest) in zip(rchunks, rres):
+        if st != "ok":
+            reg_err.append(rest[0])
+            continue
+        reg_items += list(zip(ch, rest[0]))
+    rfiles, rshards = [], []
+    for k in range(0, len(reg_items), CH):
+        p = wd / f"reg_{k // CH}.v"
+        write_reg_file(p, reg_items[k:k + CH])
+        rfiles.append(p)
+        rshards.append(reg_items[k:k + CH])
+    rcres = run_case_files_retry(rfiles)
+    for p, shard in zip(rfiles, rshards):
+        rc, out = rcres[p]
+        idx = common.parse_nat_list(out) if rc == 0 else None
+        if idx is None:
+            reg_err.append(f"{p.name}: {out[-800:]}")
+            continue
+        reg_dis += [shard[i] for i in idx]
+    timing["registry_s"] = round(time.time() - t0, 1)
 
     # ---- 2. the premise of T05.1 on the real rules
     t0 = time.time()
@@ -943,6 +1354,35 @@ def _check(run, wd, mods, core, farm, t_start):
     hist["twin-histories"], hist["sentinel-eviction-histories"] = len(tw), len(sv)
     timing["twins_sentinels_s"] = round(time.time() - t0, 1)
 
+    # 2e. histories that end with FRESH probes: binders of every builtin the evaluator knows, > maxsize other parses,
+    #     then 60 never-seen inputs with one foldable builtin call each; every call vs the same call in a fresh fork
+    t0 = time.time()
+    phs = probe_histories(mods, quick)
+    f3, n3 = run_histories_vs_fresh(farm, [ops for _, ops, _ in phs], "bare", "window", baseline, timeout=600)
+    for kind, ops, detail in f3:
+        if kind == "result-depends-on-history":
+            lab, _, n0 = next((x for x in phs if x[1] is ops), ("?", ops, 0))
+            detail.update(family=f"probe:{lab}", first_probe=n0)
+    failures += f3
+    n_calls += n3
+    hist["probe-histories"] = len(phs)
+    hist["probe-calls"] = sum(len(ops) - n0 for _, ops, n0 in phs)
+    probes_folded = sum(1 for _, ops, n0 in phs for op in ops[n0:]
+                        if baseline.get(op_key(op), ("", ""))[1] != (op[1] if op[0] == "format" else op[2]))
+    timing["probes_s"] = round(time.time() - t0, 1)
+
+    # ---- state audit: every module-level mutable object, digest fresh vs after every history job above
+    allow = load_state_allow()
+    inventory = [(n, k) for n, k, _ in (STATE_OBJS or state_objects())]
+    state_bad = []
+    for key, slot in sorted(farm.state_changes.items()):
+        reason = judge_state_change(slot["change"], allow)
+        hist[f"state:{'BAD' if reason else 'allowed'}:{slot['change']['object']}"] += slot["count"]
+        if reason:
+            state_bad.append((slot, reason))
+    static_bad = [(n, k, allow[n]) for n, k in inventory if n in allow and allow[n]["kind"] != k
+                  and not any(sl["change"]["object"] == n for sl, _ in state_bad)]
+
     # ---- verdicts
     site_hist = Counter(failure_site(k, o, d) for k, o, d in failures)
     seen_sites = set()
@@ -967,8 +1407,24 @@ def _check(run, wd, mods, core, farm, t_start):
         else:
             small = ops
             expl = "the same call returns a different result after this history than in a fresh process"
+        if kind == "result-depends-on-history" and detail.get("family", "").startswith("probe:"):
+            # keep the history up to and including the differing call; the calls after it are not needed
+            small = list(ops[:detail["call"] + 1])
         run.violation({"kind": kind, "history": enc(small), "full_history_len": len(ops), "mode": mode,
                        **detail, "explanation": expl}, True)
+    has_input = any(k in ("result-depends-on-history", "second-call-differs", "cache-unfaithful") for k, _, _ in failures)
+    for slot, reason in state_bad[:4]:
+        ops = slot["ops"]
+        run.violation({"kind": "module-state", **slot["change"], "reason": reason, "jobs_showing_it": slot["count"],
+                       "history": enc(list(ops[:400])), "full_history_len": len(ops), "mode": slot["mode"],
+                       "explanation": "state audit: a module-level mutable object of pyrefact differs from the fresh process "
+                                      "after this call history and no committed invariant makes that harmless (T05.1 assumes "
+                                      "the lru caches are the only state a call can read)"}, has_input)
+    for n, k, e in static_bad[:4]:
+        run.violation({"kind": "module-state", "object": n, "live_kind": k, "allow_listed_kind": e["kind"],
+                       "reason": f"allow-listed as {e['kind']} (invariant: {e['invariant']}) but is a {k} in $VERIF_REPO",
+                       "explanation": "state audit (static): the invariant recorded for this module-level object no "
+                                      "longer describes it"}, has_input)
     if not failures:
         for c, r in mech_dis[:4]:
             run.violation({"kind": "correspondence", "kernel": "K8 CacheModel.exec/get/update vs lru_cache",
@@ -976,6 +1432,17 @@ def _check(run, wd, mods, core, farm, t_start):
                            "impl_seen": r[0], "impl_misses": r[1], "model": model_mech_output(wd, c),
                            "explanation": "the real cache objects behave differently from the model on this "
                                           "synthetic rule history; the history sweep found no failing input"}, False)
+        for c, r in reg_dis[:3]:
+            run.violation({"kind": "correspondence", "kernel": "K8b AuxStateModel.aobserve (WeakSet design) vs core.parse + "
+                                                               "core._REBOUND_NAMES + core.is_made_of_literals",
+                           "case": {"cap": c[0], "binder_ids": list(c[1]), "history": c[2]}, "impl_seen": r,
+                           "sources": {"binder": reg_source(0, True), "other": reg_source(1, False)},
+                           "explanation": "along this history of parses the evaluator's verdict on the builtin call (folded "
+                                          "or not) differs from the model, where it is `not binds(source)` whatever was "
+                                          "parsed before (T05.4)"}, False)
+        for e in reg_err[:2]:
+            run.violation({"kind": "correspondence", "kernel": "K8b", "error": e,
+                           "explanation": "the registry correspondence could not be evaluated"}, False)
         for e in mech_err[:2]:
             run.violation({"kind": "correspondence", "kernel": "K8", "error": e,
                            "explanation": "the cache mechanics correspondence could not be evaluated"}, False)
@@ -994,7 +1461,7 @@ def _check(run, wd, mods, core, farm, t_start):
     timing["total_s"] = round(time.time() - t_start, 1)
     n_rules = len({r[0] for r in pool})
     run.coverage.update(
-        evaluations=len(mech_items) + 2 * len(sweep_ops) + n_calls,
+        evaluations=len(mech_items) + len(reg_items) + 2 * len(sweep_ops) + n_calls,
         distinct_nontrivial=len(mech_nontrivial) + len(distinct_hist),
         rule=("mechanics: synthetic rule histories (Get/Mut on tagged keys, unparsable keys) against the real "
               "core.parse object (capacity 100) and functools.lru_cache at capacities 1,2,3,5 -- exhaustive over all "
@@ -1012,10 +1479,20 @@ def _check(run, wd, mods, core, farm, t_start):
         sweep_calls=2 * len(sweep_ops), histories=len(histories), history_calls=n_calls,
         eviction_histories=len(evs), eviction_stats=ev_stats, cached_objects_compared=objects_checked,
         histogram=dict(hist), capacities=caps, timing=timing, failure_sites=dict(site_hist),
-        correspondence_disagreements=len(mech_dis) + len(mech_err), property_oracle_failures=len(failures),
+        state_audit={"objects": len(inventory), "kinds": dict(Counter(k for _, k in inventory)),
+                     "containers": sorted(n for n, k in inventory if k != "value"),
+                     "jobs_audited": farm.audited_jobs, "allow_listed": len(allow),
+                     "changed_objects": sorted({k[0] for k in farm.state_changes}),
+                     "violations": len(state_bad) + len(static_bad)},
+        probe_histories={lab: {"calls": len(ops), "probes": len(ops) - n0} for lab, ops, n0 in phs},
+        probes_whose_fresh_result_is_a_rewrite=probes_folded,
+        registry_cases=len(reg_items),
+        correspondence_disagreements=len(mech_dis) + len(mech_err) + len(reg_dis) + len(reg_err), property_oracle_failures=len(failures),
         unmodelled=["core._group_nodes_in_scope (keyed by node identity; stale exactly when the parse tree was "
                     "mutated)", "core.is_valid_python / _get_line_start_charnos / _make_match_type (immutable results)",
-                    "state outside the lru caches is covered only by the fresh-process comparison"],
+                    "module-level state of pyrefact outside the lru caches: enumerated and digested by the state audit "
+                    "(allow-list corpus/c05/module_state.json); state of imported libraries (sympy, ...) is covered only "
+                    "by the fresh-process comparison"],
         trusted_base=common.TRUSTED_BASE_COMMON + [
             "a call is modelled as a program over Get/Mut/Ret: its result depends on its argument and on the objects "
             "the caches hand out only (validated by the fresh-process comparison, not proved)",
@@ -1040,15 +1517,28 @@ def replay(path: str) -> int:
     MODS = common.import_impl()
     farm = Farm(2)
     try:
-        if data.get("kind") in ("cache-unfaithful", "result-depends-on-history", "second-call-differs"):
+        if data.get("kind") == "module-state" and "history" in data:
+            ops = [tuple(dec(x) for x in o) for o in dec(data["history"])]
+            st, *rest = farm._one({"kind": "history", "ops": ops, "mode": data.get("mode", "record"), "timeout": 600})
+            if st != "ok":
+                print("job failed:", rest)
+                return 0
+            allow = load_state_allow()
+            for ch in rest[0]["state"]:
+                print(json.dumps(ch), "\n    ->", judge_state_change(ch, allow) or "allowed")
+        elif data.get("kind") in ("cache-unfaithful", "result-depends-on-history", "second-call-differs"):
             ops = [tuple(o) for o in dec(data["history"])]
             ops = [tuple(dec(x) for x in o) for o in ops]
-            st, *rest = farm._one({"kind": "history", "ops": ops, "mode": data.get("mode", "record")})
+            st, *rest = farm._one({"kind": "history", "ops": ops, "mode": data.get("mode", "record"), "timeout": 600})
             if st != "ok":
                 print("job failed:", rest)
                 return 0
             res = rest[0]
-            for i, (op, r) in enumerate(zip(ops, res["results"])):
+            shown = list(enumerate(zip(ops, res["results"])))
+            if len(shown) > 12:      # long probe histories: the last calls only (binders / fillers are parse requests)
+                print(f"({len(shown) - 6} earlier calls not shown)")
+                shown = shown[-6:]
+            for i, (op, r) in shown:
                 st2, *rest2 = farm._one({"kind": "history", "ops": [op]})
                 fresh = rest2[0]["results"][0] if st2 == "ok" else rest2
                 print(f"call {i}: {op[0]} {op[1] if op[0] in ('rule', 'rejected') else ''}")
